@@ -27,9 +27,17 @@ static unsigned char out[1 << 19];
 static size_t outn;
 static long snk_calls, snk_fail_at;
 static unsigned emitf_odd;     /* emitf: the snk_fail_at-th call of the sink is refused with EIO */
+/* A sink (a driver behind it) may itself talk the protocol on another instance while a frame is on its way - say, to log what goes
+ * out: once per emission, at its first, second, third or fourth call, the recording sink sends a request, an error response with a
+ * payload and an acknowledgement through a second instance into a sink that throws everything away. */
+static void sink_nested(void);
+static long snk_seen;
+static unsigned emit_no;
+static int in_sink_nested;
 static ssize_t snk(void *d, const void *b, size_t n)
 {
     (void)d;
+    if (!in_sink_nested && snk_seen++ == (long)(emit_no % 4)) { in_sink_nested = 1; sink_nested(); in_sink_nested = 0; }
     if (snk_fail_at && ++snk_calls == snk_fail_at) return -EIO;
     if (outn + n > sizeof out) return -ENOMEM;
     memcpy(out + outn, b, n); outn += n;
@@ -114,6 +122,22 @@ static void backend_nested(void)
     (void)regp_resp_erange(&aux, &f, 0xDDDCDBC0u);
     (void)regp_resp_ack(&aux, &f, w, 3);
 }
+static void sink_nested(void)
+{
+    static RegP aux2;
+    Arr none3 = { NULL, 0, 0 };
+    Source s3 = OCTET_SOURCE_INIT(src_octet, &none3);
+    Sink k3 = CHUNK_SINK_INIT(void_sink, NULL);
+    regp_init(&aux2);
+    regp_use_channel(&aux2, (emit_no & 4) ? RP_EP_SERIAL : RP_EP_TCP, s3, k3);
+    static const uint16_t w[3] = { 0xDBC0, 0xDDDC, 9 };
+    RPFrame f; memset(&f, 0, sizeof f);
+    f.header.type = RP_FRAME_WRITE_REQUEST; f.header.sequence = 0xDCC0; f.header.address = 0xC0DDDBDCu;
+    (void)regp_req_write16(&aux2, 0xDBDCC0DDu, 3, w);
+    (void)regp_resp_eunmapped(&aux2, &f, 0xC0DBDDDCu);
+    (void)regp_resp_etxoverflow(&aux2, &f, 0xDCDDC0DBu);
+    (void)regp_resp_ack(&aux2, &f, w, 3);
+}
 static RPBlockAccess b_read(uint32_t a, size_t n, void *buf)
 {
     RPBlockAccess r = { (RPResponse)B.verdict, B.vaddr };
@@ -170,6 +194,7 @@ static void reset_ledger(void) { for (int i = 0; i < MAXLIVE; i++) if (L.live[i]
 
 void adapter_exec(Ev *ev)
 {
+    snk_seen = 0; emit_no++;            /* every event: the recording sink re-enters the library once, at one of its first four calls */
     if (ev_is(ev, "@")) { reset_ledger(); return; }
     if (ev_is(ev, "sizeof")) { obs(ev, (long long)sizeof(RPFrame)); return; }
     static RegP p, peer;
